@@ -485,7 +485,31 @@ impl World {
                 set_slot(&mut self.caches, *c, Some(cache));
                 Some(self.finish(line, Ret::Unit, false, log, Some(*c), None, false, false))
             }
-            Op::Clone { c, d, base } => {
+            Op::Clone { c, d, base, from: true } => {
+                // `Clone::clone_from` on an existing cache (the default is `*self = source.clone()`)
+                if c == d {
+                    return None;
+                }
+                let pre = self.snap(*c).cloned();
+                self.cache(*c)?;
+                let mut dst = self.caches.get_mut(*d)?.take()?;
+                with_ctx(|x| x.next_tok = *base);
+                begin_op(None);
+                let src = self.caches[*c].as_ref().unwrap();
+                let r = catch_unwind(AssertUnwindSafe(|| dst.clone_from(src)));
+                let log = end_op();
+                for e in &log.events {
+                    match e {
+                        Ev::CloneK(_, n) | Ev::CloneV(_, n) => self.moved_in.push(*n),
+                        _ => {}
+                    }
+                }
+                set_slot(&mut self.caches, *d, Some(dst));
+                let mut o = self.finish(line, if r.is_ok() { Ret::Cloned } else { Ret::Panicked }, r.is_err(), log, Some(*d), pre, false, true);
+                o.src_post = self.cache(*c).map(|x| observe(x, true));
+                Some(o)
+            }
+            Op::Clone { c, d, base, from: false } => {
                 let pre = self.snap(*c).cloned();
                 let src = self.cache(*c)?;
                 with_ctx(|x| x.next_tok = *base);
@@ -788,6 +812,9 @@ fn run_op(cache: &mut Cache, op: &OpKind) -> Ret {
                 }
                 _ => unreachable!(),
             }
+            if kind.borrowing() {
+                check_adapters(&*cache, calls);
+            }
             Ret::Items(*kind, items)
         }
         OpKind::Dbg => {
@@ -799,6 +826,80 @@ fn run_op(cache: &mut Cache, op: &OpKind) -> Ret {
             run_readers(&*cache, *threads as usize, *seed);
             Ret::Items(IterKind::Iter, vec![])
         }
+    }
+}
+
+/// C12 for the iterator methods a caller reaches through adapters (`count`, `last`, `nth`, `nth_back`,
+/// `size_hint`, `fold`, `rfold` — provided by the traits from `next`/`next_back` unless the crate
+/// overrides them): after the same prefix of `next`/`next_back` calls, each of them must agree with
+/// the remaining LRU→MRU segment. Runs quietly (nothing is recorded or injected).
+fn check_adapters(cache: &Cache, calls: &[bool]) {
+    let was = with_ctx(|c| std::mem::replace(&mut c.quiet, true));
+    let mut all: Vec<(u64, u64)> = Vec::new();
+    {
+        let mut it = cache.iter();
+        while let Some((k, v)) = it.next() {
+            all.push((kd(k).tok, vd(v).tok));
+            if all.len() > cache.len() + 1 {
+                break;
+            }
+        }
+    }
+    let (mut i, mut j) = (0usize, all.len());
+    for f in calls {
+        if i < j {
+            if *f { i += 1 } else { j -= 1 }
+        }
+    }
+    let rem: Vec<(u64, u64)> = all[i..j].to_vec();
+    let n = rem.len();
+    let mut bad: Vec<String> = Vec::new();
+    let proj = |which: usize, x: (u64, u64)| match which { 0 => x, 1 => (x.0, 0), _ => (0, x.1) };
+    for which in 0..3 {
+        let name = ["iter", "keys", "values"][which];
+        let want: Vec<(u64, u64)> = rem.iter().map(|x| proj(which, *x)).collect();
+        // size_hint (on the crate's own iterator type, before the projection)
+        let hint = match which {
+            0 => { let mut it = cache.iter(); for f in calls { if *f { it.next(); } else { it.next_back(); } } it.size_hint() }
+            1 => { let mut it = cache.keys(); for f in calls { if *f { it.next(); } else { it.next_back(); } } it.size_hint() }
+            _ => { let mut it = cache.values(); for f in calls { if *f { it.next(); } else { it.next_back(); } } it.size_hint() }
+        };
+        if hint.0 > n || hint.1.map(|h| h < n).unwrap_or(false) {
+            bad.push(format!("{}: size_hint {:?} but {} items remain", name, hint, n));
+        }
+        // count / last / nth / nth_back / fold / rfold on the crate's own iterator types
+        macro_rules! on { ($ctor:expr, $p:expr) => {{
+            let adv = |it: &mut _| { let it: &mut dyn DoubleEndedIterator<Item = _> = it; for f in calls { if *f { it.next(); } else { it.next_back(); } } };
+            let mut it = $ctor; adv(&mut it);
+            let c = it.count();
+            if c != n { bad.push(format!("{}: count() = {} but {} items remain", name, c, n)); }
+            let mut it = $ctor; adv(&mut it);
+            let l = it.last().map($p);
+            if l != want.last().copied() { bad.push(format!("{}: last() differs from the last remaining item", name)); }
+            for k in [0usize, 1, n.saturating_sub(1), n] {
+                let mut it = $ctor; adv(&mut it);
+                if it.nth(k).map($p) != want.get(k).copied() { bad.push(format!("{}: nth({}) differs from the remaining segment", name, k)); }
+                let mut it = $ctor; adv(&mut it);
+                let wb = if k < n { Some(want[n - 1 - k]) } else { None };
+                if it.nth_back(k).map($p) != wb { bad.push(format!("{}: nth_back({}) differs from the remaining segment", name, k)); }
+            }
+            let mut it = $ctor; adv(&mut it);
+            let f: Vec<(u64, u64)> = it.fold(Vec::new(), |mut a, x| { a.push($p(x)); a });
+            if f != want { bad.push(format!("{}: fold visits a different sequence than next()", name)); }
+            let mut it = $ctor; adv(&mut it);
+            let mut r: Vec<(u64, u64)> = it.rfold(Vec::new(), |mut a, x| { a.push($p(x)); a });
+            r.reverse();
+            if r != want { bad.push(format!("{}: rfold visits a different sequence than next_back()", name)); }
+        }}}
+        match which {
+            0 => on!(cache.iter(), |(k, v): (&MK, &MV)| (kd(k).tok, vd(v).tok)),
+            1 => on!(cache.keys(), |k: &MK| (kd(k).tok, 0u64)),
+            _ => on!(cache.values(), |v: &MV| (0u64, vd(v).tok)),
+        }
+    }
+    with_ctx(|c| c.quiet = was);
+    for b in bad.into_iter().take(3) {
+        with_ctx(|c| c.violations.push(format!("C12 {}", b)));
     }
 }
 
